@@ -100,7 +100,7 @@ def IsDig (s : String) : Prop := s.toList ≠ [] ∧ ∀ c ∈ s.toList, ck c = 
 def OffSp.Ok : OffSp → Prop
   | .h n => n.Ok ∧ n.tok.length ≤ 2
   | .hhmm t a b => IsDig t ∧ t.length = 4 ∧ pyInt (strTake t 2) = some a ∧ pyInt (strDrop t 2) = some b
-  | .colon a b => a.Ok ∧ b.Ok ∧ a.tok.length ≠ 4
+  | .colon a b => a.Ok ∧ b.Ok ∧ a.tok.length ≠ 4 ∧ a.tok.length ≤ 2 ∧ b.tok.length ≤ 2     -- `hh:mm`
 
 def RuleSp.Ok : RuleSp → Prop
   | .M m w d => m.Ok ∧ w.Ok ∧ d.Ok
